@@ -51,6 +51,8 @@ def kcKind (j : Json) : Option Flow.ReqKind :=
   | "challengeReady" => some (.challengeReady i) | "authzPoll" => some (.authzPoll i)
   | "orderPoll" => some .orderPoll | "finalize" => some .finalize | "certDownload" => some .certDownload
   | "directory" => some .directory
+  | "accountProbe" => some .accountProbe
+  | "accountProbeOld" => some .accountProbe
   | _ => none
 
 /-- in: `{kind, index, dir:{newAccount,newOrder,keyChange}, urls:{authz:[…], chal:[…], order, finalize,
@@ -78,7 +80,10 @@ def opPostSite (j : Json) : Json :=
   match kcKind j with
   | none => Json.mkObj [("error", "unknown kind")]
   | some k =>
-    match PostBind.siteOf sg dir urls data (kcAccount j) k with
+    -- "accountProbeOld": the query of the account signed by the RECORDED key (`oldKeyProbeSite`)
+    match (if str j "kind" == "accountProbeOld" then
+             PostBind.oldKeyProbeSite sg dir.keyChange (kcAccount j)
+           else PostBind.siteOf sg dir urls data (kcAccount j) k) with
     | none => Json.mkObj [("post", false)]
     | some site =>
       match PostBind.roundTx site (str j "nonce").toList with
